@@ -101,12 +101,56 @@ Theorem C11_exception_class_irrelevant : forall k pre db t nd tr ixs f inj inj' 
 Proof. exact exception_class_irrelevant. Qed.
 Print Assumptions C11_exception_class_irrelevant.
 
-(* the context option transactional_ddl (unset / True / False) is never read by flush / _create: the modelled outcome
+(* the context options transactional_ddl (unset / True / False) and transaction_per_migration are never read by flush / _create: the modelled outcome
    is the same for all three (the correspondence checks that the real code agrees, for every kind, scope and fault) *)
-Theorem C11_transactional_ddl_irrelevant : forall k pre db t nd tr ixs fl sc v1 v2,
-  model_out (mkIn k pre db t nd tr ixs fl sc v1) = model_out (mkIn k pre db t nd tr ixs fl sc v2).
+Theorem C11_transactional_ddl_irrelevant : forall k pre db t nd tr ixs fl sc v1 v2 p1 p2,
+  model_out (mkIn k pre db t nd tr ixs fl sc v1 p1) = model_out (mkIn k pre db t nd tr ixs fl sc v2 p2).
 Proof. exact tddl_irrelevant. Qed.
 Print Assumptions C11_transactional_ddl_irrelevant.
+
+(* WHAT IS LEFT, per failure point: exactly one of CREATE tmp / INSERT..SELECT / DROP original / RENAME (positions 0..3)
+   raises, nothing else fails (the copy itself satisfies the new constraints, the temporary name was free).  Then the pair
+   (table under the original name, table under the temporary name) after the transaction is ended is `left_after`:
+     0, 1 : original identical, no temporary table                                    — every kind, commit or rollback
+     2    : original identical, no temporary table — except stock sqlite3, no transaction open before, rollback:
+            the EMPTY temporary table is back (the registered deviation)
+     3    : commit (or DDL that commits): the original is gone and EVERY row is, copied, under the temporary name;
+            rollback inside one transaction: original identical, nothing else; rollback on the stock driver: original
+            identical and the empty temporary table
+   Never "data lost" (C11_no_row_lost covers positions >= 4 and every other fault pattern too). *)
+Theorem C11_fault_table : forall k pre db t nd tr ixs f inj sc T0 pos, lookup t db = Some T0 ->
+  let r := run_batch k pre db t nd tr ixs f inj sc in
+  let tmp := calc_temp_name t in
+  (pos <= 3)%nat -> (forall n, f n = Nat.eqb n pos) -> lookup tmp db = None ->
+  violates nd [] (map (copy_row tr) (t_rows T0)) = false ->
+  (lookup t (r_final r), lookup tmp (r_final r)) =
+    left_after k pre (eff_outcome sc (r_err r)) pos T0 nd (map (copy_row tr) (t_rows T0)).
+Proof. intros k pre db t nd tr ixs f inj sc T0 pos H. exact (fault_table_lk k pre db t nd tr ixs f inj sc T0 H pos). Qed.
+Print Assumptions C11_fault_table.
+
+(* the Python-level failure point of _create: `for idx in self._gather_indexes_from_both_tables()` is evaluated AFTER the
+   rename and outside the try; an index of the batch on a column the new table does not have (dropped by the same batch, or
+   never there: gather_ok = false) raises KeyError there, before any CREATE INDEX.  For every connection kind (the autocommit
+   connection included), every way the transaction is ended: no handler runs, four statements were sent, and
+     commit / autocommit / DDL that commits: the table is recreated under its own name with EVERY row (no index);
+     rollback inside one transaction      : the original, identical, nothing else;
+     rollback on the stock driver         : the original, identical, and the empty temporary table.
+   Never "data lost": the rows are under the original name, or the original is back. *)
+Theorem C11_gather_failure_point : forall k pre db t nd tr ixs f inj sc T0, lookup t db = Some T0 ->
+  let r := run_batch k pre db t nd tr ixs f inj sc in
+  let tmp := calc_temp_name t in
+  gather_ok tr ixs = false -> (forall n, f n = false) -> lookup tmp db = None ->
+  violates nd [] (map (copy_row tr) (t_rows T0)) = false ->
+  r_err r = Some EPython /\ r_log r = [KCreate tmp; KCopy t tmp; KDrop t; KRename tmp t] /\
+  (lookup t (r_final r), lookup tmp (r_final r)) =
+    left_after_gather k pre (eff_outcome sc (r_err r)) T0 nd (map (copy_row tr) (t_rows T0)).
+Proof. intros k pre db t nd tr ixs f inj sc T0 H. exact (gather_fault_lk k pre db t nd tr ixs f inj sc T0 H). Qed.
+Print Assumptions C11_gather_failure_point.
+
+(* the decider is exact: it accepts an observation iff the property holds of it *)
+Theorem C11_decider_complete : forall i o, C11_holds i o -> check_C11 i o = true.
+Proof. exact decider_complete. Qed.
+Print Assumptions C11_decider_complete.
 
 (* main theorem: on the proved class the model's output satisfies the property at full strength *)
 Theorem C11_holds_partial : forall i, inclass_C11 i = true -> C11_holds i (model_out i).
@@ -143,15 +187,32 @@ Example C11_holds_partial_nonvacuous :
 Proof. vm_compute. repeat split; congruence. Qed.
 
 Example C11_txddl_rollback_restores_nonvacuous :
-  let i := mkIn TxDDL false wit_db wit_t (i_nd (wit OwnScope)) (i_tr (wit OwnScope)) [] [(3%nat, EInjected)] (Caller Rollback) None in
+  let i := mkIn TxDDL false wit_db wit_t (i_nd (wit OwnScope)) (i_tr (wit OwnScope)) [] [(3%nat, EInjected)] (Caller Rollback) None false in
   eff_outcome (i_scope i) (r_err (model_res i)) = Rollback /\ r_err (model_res i) <> None.
 Proof. vm_compute. split; congruence. Qed.
 
 (* an interrupt at DROP original under real transactional DDL with transactional_ddl=True, caller carries on and commits:
    in the class, the handler's DROP is sent, the temporary table is gone *)
 Example C11_interrupt_nonvacuous :
-  let i := mkIn TxDDL false wit_db wit_t (mkDef 11 [0%nat] [[0%nat]] []) [TCol 0; TCol 1; TCol 2] [] [(2%nat, EInterrupt)] (Caller Commit) (Some true) in
+  let i := mkIn TxDDL false wit_db wit_t (mkDef 11 [0%nat] [[0%nat]] []) [TCol 0; TCol 1; TCol 2] [] [(2%nat, EInterrupt)] (Caller Commit) (Some true) true in
   inclass_C11 i = true /\ r_err (model_res i) = Some EInterrupt /\
   r_log (model_res i) = [KCreate (calc_temp_name wit_t); KCopy wit_t (calc_temp_name wit_t); KDrop wit_t; KDrop (calc_temp_name wit_t)] /\
   lookup (calc_temp_name wit_t) (r_final (model_res i)) = None.
 Proof. vm_compute. repeat split. Qed.
+
+Example C11_gather_failure_point_nonvacuous :
+  let nd := mkDef 11 [0%nat] [[0%nat]] [] in let tr := [TCol 0; TCol 1] in let ixs := [mkIdx [105%N;120%N] [2%nat] false] in
+  gather_ok tr ixs = false /\ lookup (calc_temp_name wit_t) wit_db = None /\ violates nd [] (map (copy_row tr) wit_rows) = false /\
+  (forall sc, r_err (run_batch AutoCommit false wit_db wit_t nd tr ixs (fun _ => false) (fun _ => EInjected) sc) = Some EPython) /\
+  option_map t_rows (lookup wit_t (r_final (run_batch AutoCommit false wit_db wit_t nd tr ixs (fun _ => false) (fun _ => EInjected) OwnScope)))
+    = Some (map (copy_row tr) wit_rows).
+Proof.
+  split; [vm_compute; reflexivity|]. split; [vm_compute; reflexivity|]. split; [vm_compute; reflexivity|].
+  split; [intros [[]|]; vm_compute; reflexivity|vm_compute; reflexivity].
+Qed.
+
+Example C11_fault_table_nonvacuous :
+  let nd := mkDef 11 [0%nat] [[0%nat]] [] in let tr := [TCol 0; TCol 1; TCol 2] in
+  lookup wit_t wit_db <> None /\ lookup (calc_temp_name wit_t) wit_db = None /\ violates nd [] (map (copy_row tr) wit_rows) = false /\
+  r_err (run_batch Pysqlite false wit_db wit_t nd tr [] (fun n => Nat.eqb n 2) (fun _ => EInjected) OwnScope) = Some EInjected.
+Proof. vm_compute. repeat split; congruence. Qed.
